@@ -170,6 +170,8 @@ pub struct Outcome {
     pub excluded: Vec<String>,
     /// number of implementation evaluations performed inside this case (>=1)
     pub evals: u64,
+    /// named counters summed over all cases into coverage.counters
+    pub counters: BTreeMap<String, u64>,
 }
 
 impl Outcome {
@@ -189,6 +191,9 @@ impl Outcome {
         if self.fail.is_none() {
             self.fail = Some(msg.into());
         }
+    }
+    pub fn count(&mut self, name: impl Into<String>, n: u64) {
+        *self.counters.entry(name.into()).or_default() += n;
     }
     pub fn exclude(&mut self, sig: impl Into<String>) {
         self.excluded.push(sig.into());
@@ -256,6 +261,7 @@ pub struct Stats {
     pub samples: Vec<Value>,
     pub exhaustive: bool,
     pub extra: BTreeMap<String, Value>,
+    pub counters: BTreeMap<String, u64>,
 }
 
 impl Stats {
@@ -276,6 +282,9 @@ impl Stats {
         }
         self.exhaustive |= o.exhaustive;
         self.extra.extend(o.extra);
+        for (k, v) in o.counters {
+            *self.counters.entry(k).or_default() += v;
+        }
     }
     pub fn record(&mut self, out: &Outcome, case_hash: u64, sample: impl FnOnce() -> Value) {
         self.cases += 1;
@@ -285,6 +294,9 @@ impl Stats {
         }
         for e in &out.excluded {
             *self.excluded.entry(e.clone()).or_default() += 1;
+        }
+        for (k, v) in &out.counters {
+            *self.counters.entry(k.clone()).or_default() += *v;
         }
         if out.nontrivial {
             let fresh = self.nontrivial_hashes.insert(case_hash);
@@ -405,6 +417,7 @@ pub fn write_evidence(
         "samples": stats.samples,
         "label_histogram": stats.labels,
         "excluded_known": stats.excluded,
+        "counters": stats.counters,
         "exhaustive": stats.exhaustive,
         "status": status,
         "rng": format!("{:?}", rng_algo()),
